@@ -302,6 +302,9 @@ func (f *frame) applyContract(n *node, c *Contract, callee *ssa.Function, args [
 	x := f.x
 	pre := n.heap.clone()
 	for _, r := range c.Requires {
+		// (the facts learnt while evaluating a precondition stay available to the code after
+		// the call, guarded by the call's reach: the callee's postconditions are stated over
+		// the same loaded values)
 		t := x.evalClauseAt(n.reach, f, r, n.heap, pre, args, nil, nil)
 		if !x.tolerant {
 			x.oblige("pre", fmt.Sprintf("%s.requires%d", c.FuncID, r.N), mergeProps(r.Props, x.safeProps), and(n.reach, not(t)), f.fn, pos)
@@ -474,6 +477,26 @@ func (x *Exec) evalClauseAt(reach string, f *frame, cl *Clause, heap, old *Heap,
 	x.specReach = reach
 	defer func() { x.specReach = saved }()
 	return x.evalClause(f, cl, heap, old, args, results, binders)
+}
+
+// evalClauseGoal evaluates a clause that is about to be *checked* at one program point:
+// the facts assumed while evaluating it (well-formedness of loaded values, contracts of
+// observers) are returned as hypotheses of that one obligation instead of joining the
+// global assumptions, where they would have to carry the point's reach as a guard.
+func (x *Exec) evalClauseGoal(f *frame, cl *Clause, heap, old *Heap, args []Val, results []Val, binders map[string]Val) (string, string) {
+	if x.g.InQuant() {
+		return x.evalClause(f, cl, heap, old, args, results, binders), "true"
+	}
+	if os.Getenv("IONVC_GLOBALFACTS") != "" {
+		return x.evalClauseAt(x.goalReach, f, cl, heap, old, args, results, binders), "true"
+	}
+	saved := x.specReach
+	x.specReach = ""
+	mark := x.g.MarkAssumes()
+	t := x.evalClause(f, cl, heap, old, args, results, binders)
+	facts := x.g.TakeAssumes(mark)
+	x.specReach = saved
+	return t, x.g.Fresh(SortBool, and(facts...))
 }
 
 // evalClause evaluates a clause function and returns its Bool term.
@@ -789,8 +812,8 @@ func (f *frame) invokeIface(n *node, recv Val, m *types.Func, args []Val, in *ss
 		pre := n.heap.clone()
 		all := append([]Val{recv}, args...)
 		for _, r := range c.Requires {
-			t := x.evalClauseAt(n.reach, f, r, n.heap, pre, all, nil, nil)
-			x.oblige("pre", fmt.Sprintf("%s.requires%d", c.FuncID, r.N), mergeProps(r.Props, x.safeProps), and(n.reach, not(t)), f.fn, in.Pos())
+			t, facts := x.evalClauseGoal(f, r, n.heap, pre, all, nil, nil)
+			x.oblige("pre", fmt.Sprintf("%s.requires%d", c.FuncID, r.N), mergeProps(r.Props, x.safeProps), and(n.reach, facts, not(t)), f.fn, in.Pos())
 			n.reach = x.g.Fresh(SortBool, and(n.reach, t))
 		}
 		x.allocN += 32
@@ -1078,8 +1101,10 @@ func (f *frame) opaqueCall(n *node, callee *ssa.Function, args []Val) (Val, bool
 	if revealed {
 		def, ok := f.inline(n, callee, args, nil, true, nil)
 		if ok && len(def.C) == len(res.C) && len(def.Sub) == 0 {
+			// The definition was inlined at this node and may have been simplified with the
+			// facts that hold on the way here: the equation is a fact about this point only.
 			for i := range def.C {
-				g.Assume(eq(res.C[i], def.C[i]))
+				g.Assume(implies(n.reach, eq(res.C[i], def.C[i])))
 			}
 		}
 	}
@@ -1150,7 +1175,9 @@ func (f *frame) atCallAssertionsNamed(n *node, in *ssa.Call, id, full string, ar
 		x.oldHeaps = append(x.oldHeaps, f.entryHeap)
 		x.specDepth++
 		x.stack = append(x.stack, fn)
-		sub.run(n.reach, n.heap.clone())
+		mark := x.g.MarkAssumes()
+		sub.run("true", n.heap.clone())
+		facts := x.g.Fresh(SortBool, and(x.g.TakeAssumes(mark)...))
 		x.stack = x.stack[:len(x.stack)-1]
 		x.specDepth--
 		x.oldHeaps = x.oldHeaps[:len(x.oldHeaps)-1]
@@ -1162,7 +1189,7 @@ func (f *frame) atCallAssertionsNamed(n *node, in *ssa.Call, id, full string, ar
 			t = ite(sub.rets[i].reach, sub.rets[i].val.C[0], t)
 		}
 		t = x.g.Fresh(SortBool, t)
-		x.oblige("atcall", fmt.Sprintf("%s.%d", cl.Callee, cl.N), cl.Props, and(n.reach, not(t)), f.fn, in.Pos())
+		x.oblige("atcall", fmt.Sprintf("%s.%d", cl.Callee, cl.N), cl.Props, and(n.reach, facts, not(t)), f.fn, in.Pos())
 		x.lastObl.Detail, x.lastObl.Clause, x.lastObl.Group = cl.Text, cl, fmt.Sprintf("atcall%d", cl.N)
 	}
 }
